@@ -90,7 +90,7 @@ func C13Worker(file string, from int) {
 	hd := strings.Fields(sc.Text())
 	yangM, yangG, initial := core.Unhex(hd[0]), core.Unhex(hd[1]), core.Unhex(hd[2])
 	c13initial = initial
-	m, err := parser.LoadModule(source.Any(source.Named("m", strings.NewReader(yangM)), source.Named("g", strings.NewReader(yangG))), "m")
+	m, err := parser.LoadModule(source.Any(source.Named("m", strings.NewReader(yangM)), source.Named("g", strings.NewReader(yangG)), source.Named("ms", strings.NewReader(c15submodule))), "m")
 	if err != nil {
 		fmt.Fprintln(w, "SCHEMA-ERR", err)
 		return
@@ -864,6 +864,7 @@ func C13(c *core.Ctx) {
 			for _, ln := range strings.Split(string(out), "\n") {
 				if strings.HasPrefix(ln, "SCHEMA-ERR") || strings.HasPrefix(ln, "INIT-ERR") {
 					c.Violation(core.Replay{Kind: "harness", Summary: "C13 worker: " + ln, Input: y, NoInputFound: true})
+					last = len(reqs) // the worker cannot start: no point in starting it again
 				}
 				if !strings.HasPrefix(ln, "#") {
 					continue
@@ -1046,7 +1047,7 @@ func c13jvalToks(v interface{}) []string {
 // the XML document of a JSON document, through the library itself
 func c13xml(y, doc string) (out string) {
 	defer func() { recover() }()
-	m, err := parser.LoadModule(source.Any(source.Named("m", strings.NewReader(y)), source.Named("g", strings.NewReader(c15imported))), "m")
+	m, err := parser.LoadModule(source.Any(source.Named("m", strings.NewReader(y)), source.Named("g", strings.NewReader(c15imported)), source.Named("ms", strings.NewReader(c15submodule))), "m")
 	if err != nil {
 		return ""
 	}
